@@ -1,10 +1,12 @@
 use crate::core::Run;
+pub mod c04;
 pub mod c08;
 pub mod c09;
 pub mod c13;
 
 pub fn dispatch(prop: &str, run: &mut Run) {
     match prop {
+        "C04" => c04::run(run),
         "C08" => c08::run(run),
         "C09" => c09::run(run),
         "C13" => c13::run(run),
